@@ -205,13 +205,127 @@ impl Check for C16Faults {
     }
 }
 
+// ---------------------------------------------------------------- an input file that cannot be read
+
+/// Several input files, one of which opens but fails on the first read (/proc/self/mem: EIO at
+/// offset 0). The run must fail; a streaming pipeline has printed exactly the rows of the files
+/// before it - nothing from the files after it - and a buffering pipeline nothing at all.
+#[derive(Clone, Debug, Serialize, Deserialize)]
+pub struct CaseBadFile {
+    /// value texts per readable file
+    pub files: Vec<Vec<String>>,
+    /// position of the unreadable file among them (0..=files.len())
+    pub bad_at: usize,
+    pub policy: u8,
+    pub pipeline: u8,
+}
+
+pub struct C16BadFile;
+impl Check for C16BadFile {
+    type Case = CaseBadFile;
+    fn name(&self) -> &'static str {
+        "C16.failing_file"
+    }
+    fn cases(&self, tier: Tier) -> u64 {
+        tier.pick(3_000, 60_000)
+    }
+    fn strategy(&self, _t: Tier) -> BoxedStrategy<CaseBadFile> {
+        let val = prop::sample::select(vec!["1", "true", "null", "\"a\"", "[]", "{}", "-0.5", "[1,2]", "{\"a\":1}", "\"b\"", "2", "[3]"]).prop_map(|s| s.to_string());
+        (vec(vec(val, 0..5), 1..4), any::<u16>(), 0u8..4, 0u8..12)
+            .prop_map(|(files, at, policy, pipeline)| {
+                let bad_at = pick_idx(at, files.len() + 1);
+                CaseBadFile { files, bad_at, policy, pipeline }
+            })
+            .boxed()
+    }
+    fn check(&self, c: &CaseBadFile) -> CaseResult {
+        if !std::path::Path::new("/proc/self/mem").exists() {
+            return CaseResult::Discard("no /proc/self/mem".into());
+        }
+        let dir = crate::fifo::tmp_dir().join(format!("c16-{:016x}", hash_str(&serde_json::to_string(c).unwrap())));
+        let _ = std::fs::create_dir_all(&dir);
+        let mut paths = Vec::new();
+        for (i, f) in c.files.iter().enumerate() {
+            let p = dir.join(format!("{}{}.json", ["m", "c", "x"][i % 3], i));
+            let text: String = f.iter().map(|v| format!("{}\n", v)).collect();
+            if std::fs::write(&p, text).is_err() {
+                let _ = std::fs::remove_dir_all(&dir);
+                return CaseResult::Discard("cannot write temp file".into());
+            }
+            paths.push(p.to_str().unwrap().to_string());
+        }
+        let mut base = pipeline_args(c.pipeline);
+        base.push(format!("--on-error={}", POLICIES[c.policy as usize % 4]));
+        let with = |files: &[String]| {
+            let mut a = base.clone();
+            a.extend(files.iter().cloned());
+            a
+        };
+        let mut all = paths.clone();
+        all.insert(c.bad_at, "/proc/self/mem".to_string());
+        let o = run(&with(&all), b"");
+        // reference: only the files in front of the unreadable one (none: an empty file)
+        let before: Vec<String> = if c.bad_at == 0 {
+            let e = dir.join("empty.json");
+            let _ = std::fs::write(&e, "");
+            vec![e.to_str().unwrap().to_string()]
+        } else {
+            paths[..c.bad_at].to_vec()
+        };
+        let r = run(&with(&before), b"");
+        let _ = std::fs::remove_dir_all(&dir);
+        if o.res.is_panic() {
+            return CaseResult::Fail(format!("panic: {} (args {:?})", o.res.short(), with(&all)));
+        }
+        let rows_before: usize = c.files[..c.bad_at].iter().map(|f| f.len()).sum();
+        let stopped_early = take_limit(c.pipeline).map(|t| rows_before >= t + if c.pipeline == 10 { 1 } else { 0 }).unwrap_or(false);
+        if stopped_early {
+            // --take was satisfied before the unreadable file was reached: it is never opened
+            if o.res != r.res || o.stdout != r.stdout {
+                return CaseResult::Fail(format!("the limit was reached before the unreadable file, yet the result differs: {} {} vs {} {} (args {:?})", o.res.short(), esc_trunc(&o.stdout, 200), r.res.short(), esc_trunc(&r.stdout, 200), with(&all)));
+            }
+            return CaseResult::Pass(Info::new(false).class("limit_reached_before_the_unreadable_file"));
+        }
+        if !o.res.is_err() {
+            return CaseResult::Fail(format!("an input file that cannot be read was not reported: result {} stdout {} (args {:?})", o.res.short(), esc_trunc(&o.stdout, 200), with(&all)));
+        }
+        if o.stdin_opened != 0 {
+            return CaseResult::Fail("stdin was opened although input files were given".into());
+        }
+        let expected: &[u8] = if streaming(c.pipeline) { &r.stdout } else { b"" };
+        // csv / text with a header: the header is printed by the reference too
+        let expected = if !streaming(c.pipeline) { expected } else { expected };
+        if o.stdout != expected {
+            return CaseResult::Fail(format!(
+                "input file {} of {} cannot be read: stdout is {} but the rows of the files in front of it are {} (args {:?})",
+                c.bad_at + 1,
+                all.len(),
+                esc_trunc(&o.stdout, 300),
+                esc_trunc(expected, 300),
+                with(&all)
+            ));
+        }
+        let after: usize = c.files[c.bad_at..].iter().map(|f| f.len()).sum();
+        CaseResult::Pass(
+            Info::new(rows_before > 0 && after > 0)
+                .class_if(c.bad_at == 0, "first_file_unreadable")
+                .class_if(c.bad_at == c.files.len(), "last_file_unreadable")
+                .class_if(c.bad_at > 0 && c.bad_at < c.files.len(), "middle_file_unreadable")
+                .class_if(!streaming(c.pipeline), "buffering_pipeline")
+                .obs(json!({"args": with(&all), "stdout": esc_trunc(&o.stdout, 120), "result": o.res.short()})),
+        )
+    }
+}
+
 pub fn run_all(ctx: &mut Ctx) {
     ctx.level = "fault_enumeration";
     ctx.rule = "per generated (input <= 400 bytes incl. noise, policy, pipeline, short-read/short-write schedule with Interrupted results): a read fault at EVERY byte offset 0..=len (7 error kinds rotating over the offsets) and a write fault at EVERY byte offset of the fault-free stdout (and of the fault-free stderr under --on-error=stderr), plus a writer that fails only on flush. Oracle: never a panic; the run returns Err (never Ok); stdout/stderr accepted so far are byte prefixes of the fault-free ones; no more output than the bytes before the fault justify (run on the truncated input); write faults: exactly fault_free[..k] was accepted. evaluations = individual faulted runs; non-trivial case = at least two fault offsets strictly inside the stream (output already produced and more to come); distinct = distinct cases by hash".into();
     ctx.assumptions = vec!["a failing descriptor keeps failing (after 64 failures the reader reports EOF so that an implementation that wrongly retries terminates and is judged by its result)".into()];
     C16Faults.run(ctx);
+    ctx.rule.push_str(". C16.failing_file: 1..3 readable files and one that opens but fails on the first read (/proc/self/mem) at every position among them x 4 policies x 12 pipelines: the run fails, a streaming pipeline has printed exactly the rows of the files in front of it, a buffering one nothing");
+    C16BadFile.run(ctx);
 }
 
 pub fn checks() -> Vec<Box<dyn DynCheck>> {
-    vec![Box::new(C16Faults)]
+    vec![Box::new(C16Faults), Box::new(C16BadFile)]
 }
